@@ -220,7 +220,7 @@ static int cmd_run(int argc, char **argv)
         uint64_t seed = 1, maxruns = ~0ULL, from = 0;
         int worker = 0, nworkers = 1, tier = 0;
         double secs = 10;
-        int det_every = 16, shrink_budget = 600;
+        int det_every = 16, shrink_budget = 600, max_viol = 20;
         for (int i = 2; i < argc; i++) {
                 std::string a = argv[i];
                 auto next = [&]() { return std::string(i + 1 < argc ? argv[++i] : ""); };
@@ -246,6 +246,8 @@ static int cmd_run(int argc, char **argv)
                         tier = next() == "thorough" ? 1 : 0;
                 else if (a == "--det-every")
                         det_every = atoi(next().c_str());
+                else if (a == "--max-viol")
+                        max_viol = atoi(next().c_str());
                 else if (a == "--avoid")
                         g_avoid.push_back(next());
                 else if (a == "--trace")
@@ -365,7 +367,7 @@ static int cmd_run(int argc, char **argv)
                         write_file(path, rep.str());
                         printf("VIOL property=%s oracle=%s index=%llu file=%s hash=%016llx detail=%s\n", prop.c_str(), rm.oracle.c_str(), (unsigned long long) index, path.c_str(), (unsigned long long) rm.hash, rm.detail.c_str());
                         fflush(stdout);
-                        if (own_viol >= 20)
+                        if (own_viol >= (uint64_t) max_viol)
                                 break;
                 }
         }
